@@ -567,7 +567,7 @@ pub fn run(ctx: &Ctx) -> Outcome {
         _ => 4,
     });
 
-    let report = run_sharded(ctx, jobs.len(), |shard, rep| match &jobs[shard] {
+    let mut report = run_sharded(ctx, jobs.len(), |shard, rep| match &jobs[shard] {
         Job::Short13 => {
             enumerate(&ALPHA13, &[], 0, "exhaustive13", rep);
             enumerate(&ALPHA13, &[], 1, "exhaustive13", rep);
@@ -686,6 +686,12 @@ pub fn run(ctx: &Ctx) -> Outcome {
             }
         }
     });
+    {
+        // the same calls from a thread-local destructor while a thread exits (see exitprobe.rs)
+        let mut at_exit = Report::new();
+        crate::exitprobe::check("codec", MON, &mut at_exit);
+        report.merge(at_exit);
+    }
 
     let floors = vec![
         floor("alphabet-13 enumeration complete (169 prefixes)", report.get("alpha13_prefixes_completed") == 169, report.get("alpha13_prefixes_completed")),
